@@ -51,7 +51,7 @@ pub fn base_file(hdr: usize, layout: usize) -> Vec<u8> {
         e.push((5, XEntry::InUse { off: o, gen: 0 }));
         let o = d.obj(6, 0, h.dict().as_bytes());
         e.push((6, XEntry::InUse { off: o, gen: 0 }));
-        d.xref_table(&e, 8, &format!("/Root 4 0 R /Encrypt 6 0 R /ID [{} {}]", hexs(ID0), hexs(ID0)), None, Split::Min);
+        d.xref_table(&e, 8, &format!("/Root 4 0 R /Encrypt 6 0 R /ID [{} {}]", hexs(ID0), hexs(&ID0.iter().rev().copied().collect::<Vec<u8>>())), None, Split::Min);
         return d.buf;
     }
     let layout = match layout { 2 | 4 => 0, 3 => 1, l => l };
